@@ -393,6 +393,19 @@ type vfGenDec struct {
 	seenStr map[uintptr]map[string]struct{}
 	seenI32 map[uintptr]map[int32]struct{}
 	force16 []int16 // values forced onto the next getInt16 calls (request header: key, version)
+	bigUsed bool    // one compact collection of this value already has a length at the uvarint boundary
+}
+
+// vfCompactCount draws the length of a compact collection: 0..3 as everywhere else, but one
+// collection per value in ten gets 126..128 elements, so that the length prefix (n+1 as an
+// unsigned varint) crosses its first 7-bit boundary in the sizing and in the writing pass.
+func (g *vfGenDec) vfCompactCount() int {
+	if !g.bigUsed && g.d.vfOneIn(10) {
+		g.bigUsed = true
+		g.budget = 12 * vfDefaultBudget
+		return 126 + g.d.vfIntn(3)
+	}
+	return g.d.vfCount()
 }
 
 func vfNewGenDec(d *vfDraws, version int16) *vfGenDec {
@@ -556,7 +569,7 @@ func (g *vfGenDec) getCompactArrayLength() (int, error) {
 	if err != nil {
 		return 0, err
 	}
-	n := g.d.vfCount()
+	n := g.vfCompactCount()
 	if n == 0 && g.d.vfOneIn(4) {
 		g.w.vfCArrayLen(-1) // null array
 		return 0, nil
@@ -722,7 +735,7 @@ func (g *vfGenDec) getCompactInt32Array() ([]int32, error) {
 	if err != nil {
 		return nil, err
 	}
-	n := g.d.vfCount()
+	n := g.vfCompactCount()
 	// null only where the protocol makes the array nullable; elsewhere the encoder
 	// (putCompactInt32Array) refuses a nil slice
 	if _, nullable := vfApply(ov, g, idx); nullable && n == 0 && g.d.vfOneIn(3) {
